@@ -6,7 +6,7 @@ explicit, every note carries its symbolic duration - so the expected result of l
 from fractions import Fraction
 
 FEATURES = ["pickup", "chord", "two_voices", "two_staves", "tie_barline", "tie_chain", "tie_cross_voice", "grace", "grace_chain", "grace_run_below", "underfilled_measures", "slur", "slur_chain", "slur_overlap", "slur_barline",
-            "tuplet", "dynamics", "wedge", "wedge_overlap", "dashes", "words", "words_quantified", "constant_directions_of_three_families", "pedal", "pedal_barline", "pedal_change_inside_a_measure", "tempo", "tempo_mid", "tempo_dotted_units", "repeat", "repeat_inside_measures", "ending", "fermata_note", "fermata_barline", "fermata_inner_barline",
+            "tuplet", "dynamics", "wedge", "wedge_overlap", "dashes", "dashes_overlap", "part_name_of_two_lines", "words", "words_quantified", "constant_directions_of_three_families", "pedal", "pedal_barline", "pedal_change_inside_a_measure", "tempo", "tempo_mid", "tempo_dotted_units", "repeat", "repeat_inside_measures", "ending", "fermata_note", "fermata_barline", "fermata_inner_barline",
             "articulation", "articulation_order", "fingering", "stem", "unpitched", "rests", "key_change", "ts_change", "clef_change", "divisions_change",
             "divisions_change_mid", "dotted", "page", "two_parts", "group", "nested_group", "nested_group_first", "voice_gap", "polyphony", "polyphony_two_voices", "polyphony_with_voices_1_and_3",
             "measure_names", "irregular_measure", "accidentals", "duplicate_ids"]
@@ -265,6 +265,14 @@ def build(features, pid="P1", seed=0):
         part.add(sc.DecreasingLoudnessDirection("diminuendo", wedge=True, staff=(2 if "two_staves" in f else None)), B.t(m3), B.t(m3 + 2))
     if "dashes" in f:
         direction("cresc.", m1 + 2, m2 + 1)
+    if "dashes_overlap" in f:
+        # two dashed directions of different families that overlap in time (the writer numbers them 1 and 2)
+        direction("cresc.", m1, m2 + 1)
+        direction("rit.", m1 + 2, m3)
+    if "part_name_of_two_lines" in f:
+        # a line break and a tab are legal characters of XML text
+        part.part_name = "Clarinet\nin B flat"
+        part.part_abbreviation = "Cl.\tB"
     if "words" in f:
         direction("dolce", m1)
         direction("some unknown words", m3)
